@@ -1,8 +1,250 @@
 import PybtexModel.Drv.Json
+import PybtexModel.Model.Errors
+import PybtexModel.Spec.Reporting
 open Lean
 namespace Pybtex.Drv.C16
+open Pybtex.Errors
 
-/-- driver ops of this property: (op name, handler) -/
-def handlers : List (String × (Json → Except String Json)) := []
+/-! ### decoding error values -/
+
+def optField (j : Json) (k : String) : Option Json :=
+  match j.getObjVal? k with
+  | .ok .null => none
+  | .ok v => some v
+  | .error _ => none
+
+def getOptStr (j : Json) (k : String) : Except String (Option Str) :=
+  match optField j k with
+  | none => pure none
+  | some v => do pure (some (← jsonToStr v))
+
+def getOptNat (j : Json) (k : String) : Except String (Option Nat) :=
+  match optField j k with
+  | none => pure none
+  | some v => do pure (some (← v.getNat?))
+
+def parseInfo (j : Json) : Except String CtxInfo := do
+  let kind ← (← j.getObjVal? "kind").getStr?
+  let k ← match kind with
+    | "scanner" => pure ParserKind.scanner
+    | "lowLevel" => pure ParserKind.lowLevel
+    | _ => throw s!"unknown parser kind {kind}"
+  pure { kind := k, text := ← getStr j "text", start := ← getOptNat j "start",
+         lineno := ← getOptNat j "lineno", pos := ← getNat j "pos" }
+
+/-- `none` = a class the model has no rendering for (reported to the harness, which counts it as
+a correspondence break) -/
+def parseErr (j : Json) : Except String (Option Err) := do
+  let cls ← (← j.getObjVal? "cls").getStr?
+  if (optField j "unparsed").isSome then return none
+  let plain (c : PlainClass) : Except String (Option Err) := do
+    pure (some (.plain c (← getStr j "msg") (← getOptStr j "filename")))
+  let syn (c : SyntaxClass) : Except String (Option Err) := do
+    let arg ← match optField j "arg" with
+      | some v => jsonToStr v
+      | none => pure []
+    pure (some (.syntaxErr c arg (← getOptStr j "filename") (← getOptNat j "lineno")))
+  match cls with
+  | "PybtexError" => plain .pybtexError
+  | "BibliographyDataError" => plain .bibliographyDataError
+  | "BibTeXError" => plain .bibTeXError
+  | "ConvertError" => plain .convertError
+  | "DuplicateField" => pure (some (.duplicateField (← getStr j "key") (← getStr j "field")))
+  | "InvalidNameString" => pure (some (.invalidNameString (← getStr j "name")))
+  | "PluginGroupNotFound" => pure (some (.pluginGroupNotFound (← getStr j "group")))
+  | "PluginNotFound" => pure (some (.pluginNotFound (← getStr j "group") (← getStr j "name")))
+  | "FieldIsMissing" =>
+    let ej ← j.getObjVal? "entry"
+    let kind ← (← ej.getObjVal? "kind").getStr?
+    let ek ← match kind with
+      | "missing" => pure EntryKey.missing
+      | "none" => pure EntryKey.none
+      | "key" => do pure (EntryKey.key (← getStr ej "key"))
+      | _ => throw s!"unknown entry kind {kind}"
+    pure (some (.fieldIsMissing (← getStr j "field") ek))
+  | "PybtexSyntaxError" => syn .pybtexSyntaxError
+  | "UndefinedMacro" => syn .undefinedMacro
+  | "PrematureEOF" => syn .prematureEOF
+  | "UnbalancedBraceError" => syn .unbalancedBrace
+  | "TokenRequired" =>
+    pure (some (.tokenRequired (← getStr j "description") (← getOptStr j "filename")
+      (← parseInfo (← j.getObjVal? "info"))))
+  | "AuxDataError" =>
+    pure (some (.auxData (← getStr j "msg") (← getOptStr j "filename") (← getOptNat j "lineno")
+      (← getOptStr j "line")))
+  | _ => pure none
+
+def failJ : RenderFail → Json
+  | .indexError => obj [("fail", Json.str "IndexError")]
+
+/-- `format_error(e, prefix)` as text, or the failure -/
+def formatJ (e : Err) (pre : Str) : Json :=
+  match formatError e pre with
+  | .ok t => strToJson t
+  | .error f => failJ f
+
+def renderJ (e : Err) (pre : Str) : Json :=
+  obj [("cls", Json.str e.className),
+       ("str", strToJson e.str),
+       ("context", match e.getContext with
+          | .ok c => optJ strToJson c
+          | .error f => failJ f),
+       ("filename", optJ strToJson e.getFilename),
+       ("format", formatJ e pre)]
+
+/-- the shape `C16_render_total` promises, as data for the oracle -/
+def shapeJ (e : Err) (pre : Str) : Json :=
+  obj [("wf", Json.bool e.WF),
+       ("lines", match formatErrorLines e pre with
+          | .ok ls => strs ls
+          | .error f => failJ f),
+       ("last", strToJson (withFile e.getFilename (pre ++ e.str))),
+       ("has_filename", Json.bool (match e.getFilename with
+          | some f => !f.isEmpty
+          | none => false))]
+
+def errrender (j : Json) : Except String Json := do
+  let pre ← getStr j "prefix"
+  match ← parseErr (← j.getObjVal? "e") with
+  | none => pure (obj [("out", obj [("unmodelled", ← j.getObjVal? "e" >>= (·.getObjVal? "cls"))]), ("spec", Json.null)])
+  | some e => pure (obj [("out", renderJ e pre), ("spec", shapeJ e pre)])
+
+def errclasses (_ : Json) : Except String Json :=
+  pure (obj [("out", arr (classNames.map Json.str)), ("spec", arr (classNames.map Json.str))])
+
+/-! ### histories -/
+
+def parseOp (j : Json) : Except String (Op Nat) := do
+  let o ← (← j.getObjVal? "o").getStr?
+  match o with
+  | "enter" => pure .enter
+  | "exit" => pure .exit
+  | "abort" => pure .abort
+  | "strict" => pure (.setStrict (← getBool j "b"))
+  | "report" => pure (.report (← getNat j "k"))
+  | _ => throw s!"unknown history op {o}"
+
+def idsJ (l : List Nat) : Json := arr (l.map nat)
+
+def stateJ (s : State Nat) : Json :=
+  arr [Json.bool s.strict, nat s.errorCode, optJ idsJ s.captured]
+
+def obsJ (errs : Array Err) : Obs Nat → Except String Json
+  | .unit => pure Json.null
+  | .left l => pure (obj [("left", optJ idsJ l)])
+  | .collected => pure (Json.str "collected")
+  | .printed k =>
+    match errs[k]? with
+    | some e => pure (obj [("printed", formatJ e warningPrefix)])
+    | none => throw s!"report index {k} out of range"
+  | .raised k => pure (obj [("raised", nat k)])
+  | .noContext => pure (Json.str "no-context")
+
+/-- run the model, one record per operation: what it did and the module state after it -/
+def runJ (errs : Array Err) (c : Config Nat) : List (Op Nat) → Except String (List Json × Config Nat)
+  | [] => pure ([], c)
+  | op :: ops => do
+    let r := step c op
+    let o ← obsJ errs r.2
+    let rest ← runJ errs r.1 ops
+    pure (obj [("obs", o), ("st", stateJ r.1.st)] :: rest.1, rest.2)
+
+/-- driver-side bookkeeping only: the list each context yielded, in the order of the enters
+(`open` = indices of the open contexts, innermost first) -/
+def listsByEnter : List (Op Nat) → List (Obs Nat) → List Nat → Array Json → Array Json
+  | op :: ops, o :: os, opened, acc =>
+    match op, o with
+    | .enter, _ => listsByEnter ops os (acc.size :: opened) (acc.push Json.null)
+    | _, .left l =>
+      match opened with
+      | i :: rest => listsByEnter ops os rest (acc.setIfInBounds i (optJ idsJ l))
+      | [] => listsByEnter ops os [] acc
+    | _, _ => listsByEnter ops os opened acc
+  | _, _, _, acc => acc
+
+def specObsJ : Obs Nat → Json
+  | .collected => Json.str "collected"
+  | .printed k => obj [("printed", nat k)]
+  | .raised k => obj [("raised", nat k)]
+  | _ => Json.null
+
+def errhist (j : Json) : Except String Json := do
+  let errsJ ← getArr j "errs"
+  let errsO ← errsJ.mapM parseErr
+  let errs ← errsO.mapM fun o => match o with
+    | some e => pure e
+    | none => throw "unmodelled error class in a history"
+  let ops ← (← getArr j "ops").mapM parseOp
+  let strict0 ← getBool j "strict0"
+  let c0 : Config Nat := { st := { strict := strict0, errorCode := 0, captured := none }, saved := [] }
+  let (trace, cfin) ← runJ errs.toArray c0 ops
+  let r := run c0 ops
+  let lists := listsByEnter ops r.2 [] #[]
+  let specReports := Spec.reportObs 0 strict0 ops
+  pure (obj [
+    ("out", obj [("trace", arr trace), ("final", stateJ cfin.st), ("open", nat cfin.saved.length),
+                 ("lists", Json.arr lists)]),
+    ("spec", obj [("reports", arr (specReports.map specObsJ)),
+                  ("lists", arr ((Spec.contextLists ops).map idsJ)),
+                  ("code", nat (Spec.finalCode 0 specReports)),
+                  ("strict", Json.bool (finalStrict strict0 ops)),
+                  ("balanced", Json.bool (balanced ops)),
+                  ("depth", optJ nat (depthAfter 0 ops))])])
+
+/-! ### the three modes of one computation -/
+
+def errmodes (j : Json) : Except String Json := do
+  let rsO ← (← getArr j "reports").mapM parseErr
+  let fatalO ← match optField j "fatal" with
+    | some f => do pure (some (← parseErr f))
+    | none => pure none
+  if rsO.any Option.isNone || fatalO == some none then
+    return obj [("out", obj [("unmodelled", Json.bool true)]), ("spec", Json.null)]
+  let rs := rsO.filterMap id
+  let fatal : Option Err := fatalO.bind id
+  let c : Comp Err := { reports := rs, fatal := fatal }
+  let s0 : State Err := State.init
+  let cap := execCaptured s0 c
+  let ns := exec { s0 with strict := false } c
+  let st := exec s0 c
+  let cl := commandLine s0 c
+  let errJ (e : Err) : Json := formatJ e errorPrefix
+  let m := Spec.modes c
+  pure (obj [
+    ("out", obj [
+      ("capture", obj [("collected", optJ (fun l => arr (l.map fun e => renderJ e errorPrefix)) cap.2.1),
+                       ("raised", optJ errJ cap.2.2),
+                       ("restored", Json.bool (cap.1 == s0))]),
+      ("nonstrict", obj [("stderr", arr ((printedOf ns.2.1).map fun e => formatJ e warningPrefix)),
+                         ("code", nat ns.1.errorCode),
+                         ("raised", optJ errJ ns.2.2)]),
+      ("strict", obj [("stderr", arr ((printedOf st.2.1).map fun e => formatJ e warningPrefix)),
+                      ("raised", optJ errJ st.2.2)]),
+      ("cmdline", obj [("stderr", arr (cl.2.1.map fun p => formatJ p.2 (if p.1 then errorPrefix else warningPrefix))),
+                       ("status", nat cl.2.2)])]),
+    ("spec", obj [("collected", arr (m.collected.map errJ)),
+                  ("wf", Json.bool (rs.all Err.WF && (match fatal with
+                    | some f => f.WF
+                    | none => true))),
+                  ("printed", arr (m.printed.map fun e => formatJ e warningPrefix)),
+                  ("code", nat m.errorCode),
+                  ("strict_raises", optJ errJ m.strictRaises),
+                  ("status", nat m.status)])])
+
+/-! ### name format letters -/
+
+def fmtchars (j : Json) : Except String Json := do
+  let v ← getStr j "value"
+  let out : Json :=
+    if checkFormatChars false v then
+      match namePartInit v with
+      | some (a, abbr) => obj [("ok", arr [strToJson [a], Json.bool abbr])]
+      | none => Json.str "unreachable:BibTeXNameFormatError"
+    else Json.str "PybtexSyntaxError"
+  pure (obj [("out", out), ("spec", Json.bool (checkFormatChars false v))])
+
+def handlers : List (String × (Json → Except String Json)) :=
+  [("errhist", errhist), ("errrender", errrender), ("errclasses", errclasses),
+   ("errmodes", errmodes), ("fmtchars", fmtchars)]
 
 end Pybtex.Drv.C16
